@@ -279,6 +279,13 @@ def gen_norm(rng, n, tier="quick"):
         elif k == 13:
             # moon angles with the instant omitted (now, UTC) and the phase with the date omitted
             which = rng.choice(["azimuth", "elevation", "zenith", "phase"])
+            if which == "phase" and rng.random() < 0.4:
+                # the phase with no argument is today's (UTC) phase: a running clock that is one
+                # second before 00:00 UTC at the first reading
+                now = datetime.datetime(d.year, d.month, d.day, 23, 59, 59, tzinfo=UTC)
+                tick = datetime.timedelta(seconds=3)
+                descr["now"] = now.isoformat()
+                descr["clock"] = "running: +3 s at every reading after the first"
             descr.update({"function": "moon." + which, "instant": "omitted"})
             with FrozenClock(now, tick):
                 if which == "phase":
